@@ -577,6 +577,24 @@ vrt = { path = "%s" }
         m = meta[cid]
         json.dump(m["doc"], open(os.path.join(mdir, "schemas", cid + ".json"), "w"))
         lib.append("pub mod %s {\n%s\n}" % (cid, macro_invocation(m["o"], "schemas/%s.json" % cid)))
+    # path-spelled derives through the macro (globally, in a patch, and in both): judged on "the expansion compiles and
+    # carries the derive once" only, because the macro's path rendering changes the position of a derive in the list
+    pd_mods = {}
+    for j, (glob_d, patch_d) in enumerate([(["::std::cmp::PartialEq"], []), ([], ["::std::cmp::PartialEq"]),
+                                           (["::std::cmp::PartialEq"], ["::std::cmp::PartialEq"]),
+                                           (["std::cmp::PartialEq", "Eq"], ["std::cmp::PartialEq"]),
+                                           (["PartialEq"], ["PartialEq", "Eq"])]):
+        o_ = {"derives": glob_d, "struct_builder": j % 2 == 0, "unknown_crates": None, "crates": [], "map_type": None,
+              "patches": [{"name": "Tagged", "rename": None, "derives": patch_d}] if patch_d else [], "replacements": [],
+              "conversions": [], "ext": None}
+        # (structs only: a data-less enum or string newtype already derives the comparison traits under their short names,
+        # and a second spelling of the same trait is the caller's responsibility)
+        doc_ = {"definitions": {"Other": {"type": "object", "properties": {"s": {"type": "string"}}},
+                                "Tagged": {"type": "object", "properties": {"k": {"type": "string"}, "n": {"type": "integer"}}}}}
+        name_ = "pd%02d" % j
+        pd_mods[name_] = (o_, doc_)
+        json.dump(doc_, open(os.path.join(mdir, "schemas", name_ + ".json"), "w"))
+        lib.append("pub mod %s {\n%s\n}" % (name_, macro_invocation(o_, "schemas/%s.json" % name_)))
     open(os.path.join(mdir, "src", "lib.rs"), "w").write("\n".join(lib) + "\n")
     log = os.path.join(wd, "macro.hooks.log")
     env = util.cargo_env({"CARGO_TARGET_DIR": TARGET_MACRO, "TYPIFY_VERIF_LOG": log})
@@ -608,6 +626,19 @@ vrt = { path = "%s" }
                 key = os.path.basename(ev["d"]["schema"])[:-5]
                 streams[key] = ev["d"]["tokens"]
                 news[key] = last_new
+    for name_, (o_, doc_) in pd_mods.items():
+        rep.evaluations += 1
+        errs_ = [e for e in macro_errs if name_ in json.dumps(e.get("spans") or []) or name_ in (e.get("rendered") or "")]
+        inv_ = macro_invocation(o_, "schemas/%s.json" % name_)
+        case_ = {"id": name_, "settings": builder_settings(o_), "history": [{"op": "root", "schema": doc_}]}
+        if errs_:
+            rep.violation("macro_expansion_does_not_compile", common.site_of(errs_[0].get("message")),
+                          {"invocation": inv_, "error": errs_[0].get("rendered", "")[:600]}, case=case_, options=o_)
+        elif name_ not in streams:
+            rep.violation("macro_fails_where_builder_succeeds", "no stream event", {"invocation": inv_}, case=case_, options=o_)
+        else:
+            rep.count("macro_path_derives_compile")
+            rep.nontrivial.add("pd:" + name_)
     for cid in mac_ids:
         m = meta[cid]
         res = results[cid]
